@@ -1,5 +1,5 @@
 (* C19 - Generated fuzzing inputs are always memory-safe, valid request values. *)
-From Ctap Require Import Base Schema Utf8 Typed Arb Inst Tables Limits WireP Utf8P ArbP Within ArbTy ArbTyP ObArbGenable Procs ProcTables Finite FramingP ObRequestSide FnShapes Shapes ObShapeArb Deps ObDeps ObShapeArbRequests.
+From Ctap Require Import Base Schema Utf8 Typed Arb Inst Tables Limits WireP Utf8P ArbP Within ArbTy ArbTyP ObArbGenable Procs ProcTables Finite FramingP ObRequestSide FnShapes Shapes ObShapeArb Deps ObDeps ObShapeArbRequests PlainDecls ObPlainU2fRequests.
 Local Open Scope string_scope.
 Local Open Scope Z_scope.
 
@@ -149,6 +149,10 @@ Proof. exact generated_deps. Qed.
 Theorem c19_modelled_functions_unchanged_arb_requests : shapes_hold fn_shapes shapes_arb_requests = true.
 Proof. exact generated_shapes_arb_requests. Qed.
 
+(* the plain structures (no serde meaning of their own) whose member types the model relies on *)
+Theorem c19_plain_structures_unchanged_u2f_requests : plain_hold raw_decls plain_u2f_requests = true.
+Proof. exact generated_plain_u2f_requests. Qed.
+
 Eval vm_compute in "ASSUMPTIONS c19_bytes". Print Assumptions c19_bytes.
 Eval vm_compute in "ASSUMPTIONS c19_byte_array". Print Assumptions c19_byte_array.
 Eval vm_compute in "ASSUMPTIONS c19_str". Print Assumptions c19_str.
@@ -171,3 +175,4 @@ Eval vm_compute in "ASSUMPTIONS c19_every_generated_value_valid". Print Assumpti
 Eval vm_compute in "ASSUMPTIONS c19_generated_types_generable". Print Assumptions c19_generated_types_generable.
 Eval vm_compute in "ASSUMPTIONS c19_spec_types_generable". Print Assumptions c19_spec_types_generable.
 Eval vm_compute in "ASSUMPTIONS c19_generated_conforms". Print Assumptions c19_generated_conforms.
+Eval vm_compute in "ASSUMPTIONS c19_plain_structures_unchanged_u2f_requests". Print Assumptions c19_plain_structures_unchanged_u2f_requests.
